@@ -55,6 +55,19 @@ type FileDesc struct {
 	Tombs []Tomb `json:"tombs,omitempty"`
 }
 
+// BigFile: for every run, N blocks of one integer point each at From, From+1, ...
+type BigRun struct {
+	K    int   `json:"k"`
+	From int64 `json:"from"`
+	N    int   `json:"n"`
+	Val  int64 `json:"val"`
+}
+type BigFile struct {
+	Gen  int      `json:"gen"`
+	Seq  int      `json:"seq"`
+	Runs []BigRun `json:"runs"`
+}
+
 type KP struct {
 	K int `json:"k"`
 	P Pt  `json:"p"`
@@ -84,6 +97,13 @@ type SetDesc struct {
 	ViaEngine bool `json:"via_engine,omitempty"`
 
 	CrashAt int `json:"crash_at,omitempty"`
+
+	// roll-over cases: files made of one-point blocks (too many to list)
+	Big []BigFile `json:"big,omitempty"`
+
+	// delete cases: FileStore.Delete(keys[DelKey]) is issued from the compactor's file-name
+	// callback, i.e. after the block iterators exist and before the first block is read
+	DelKey int `json:"del_key,omitempty"`
 
 	Fault     int `json:"fault,omitempty"` // 1 compactor closed, 2 corrupt block, 3 missing file in plan, 4 compactions disabled, 5 engine compactGroup on corrupt block
 	FaultFile int `json:"fault_file,omitempty"`
@@ -1049,6 +1069,202 @@ func runFail(o *hx.Out, d *SetDesc, origin string) {
 		Sig: sigOf(d, "fail"), Origin: origin})
 }
 
+// ---------------------------------------------------------------- case: roll-over at the block-count limit
+
+func writeBigFile(dir string, d *SetDesc, f *BigFile) error {
+	fd, err := os.OpenFile(fileName(dir, f.Gen, f.Seq), os.O_CREATE|os.O_RDWR|os.O_EXCL, 0666)
+	if err != nil {
+		return err
+	}
+	w, err := tsm1.NewTSMWriter(fd)
+	if err != nil {
+		return err
+	}
+	runs := append([]BigRun{}, f.Runs...)
+	sort.SliceStable(runs, func(a, b int) bool { return string(d.Keys[runs[a].K].Bytes()) < string(d.Keys[runs[b].K].Bytes()) })
+	for _, r := range runs {
+		key := d.Keys[r.K].Bytes()
+		for i := 0; i < r.N; i++ {
+			err := w.Write(key, []tsm1.Value{tsm1.NewValue(r.From+int64(i), r.Val)})
+			if err != nil && !(err == tsm1.ErrMaxBlocksExceeded && i == r.N-1) {
+				return err
+			}
+		}
+	}
+	if err := w.WriteIndex(); err != nil {
+		return err
+	}
+	return w.Close()
+}
+
+func coqUnitOuts(d *SetDesc, outs []outFile) string {
+	items := make([]string, len(outs))
+	for i, o := range outs {
+		var ks []string
+		for _, k := range o.Keys {
+			unit := true
+			var all []Pt
+			for _, b := range k.Blocks {
+				if len(b.Vals) != 1 || b.Count != 1 || b.Min != b.Vals[0].T || b.Max != b.Vals[0].T {
+					unit = false
+				}
+				all = append(all, b.Vals...)
+			}
+			if unit {
+				ks = append(ks, fmt.Sprintf("(%d%%N,unit_blocks %s)", k.K, coqTVs(d.Keys[k.K].Typ, all)))
+				continue
+			}
+			var bs []string
+			for _, b := range k.Blocks {
+				bs = append(bs, fmt.Sprintf("((%s,%s,%d%%N),%s)", hx.CoqZ(b.Min), hx.CoqZ(b.Max), b.Count, coqTVs(d.Keys[k.K].Typ, b.Vals)))
+			}
+			ks = append(ks, fmt.Sprintf("(%d%%N,[%s])", k.K, strings.Join(bs, ";")))
+		}
+		items[i] = fmt.Sprintf("(%d%%N,%d%%N,[%s])", o.Gen, o.Seq, strings.Join(ks, ";"))
+	}
+	return "[" + strings.Join(items, ";\n   ") + "]"
+}
+
+func readAscOnly(fs *tsm1.FileStore, d *SetDesc) []keyRead {
+	rs := make([]keyRead, len(d.Keys))
+	for i, k := range d.Keys {
+		a, e := readCursor(fs, k.Bytes(), k.Typ, d.Lo, true)
+		rs[i] = keyRead{Asc: a}
+		if e != nil {
+			rs[i].Err = e.Error()
+		}
+	}
+	return rs
+}
+
+func runRoll(o *hx.Out, d *SetDesc, origin string) {
+	o.Begin("roll", d)
+	dir, _ := os.MkdirTemp(scratchRoot(), "c09-")
+	defer os.RemoveAll(dir)
+	var fsn [][2]int
+	total := 0
+	for i := range d.Big {
+		if err := writeBigFile(dir, d, &d.Big[i]); err != nil {
+			o.Count("skipped:materialize:" + firstWord(err))
+			return
+		}
+		fsn = append(fsn, [2]int{d.Big[i].Gen, d.Big[i].Seq})
+		for _, r := range d.Big[i].Runs {
+			total += r.N
+		}
+	}
+	fs, err := openStore(dir)
+	if err != nil {
+		o.Count("skipped:open")
+		return
+	}
+	defer fs.Close()
+	// ascending reads only: a cursor over tens of thousands of blocks is quadratic
+	before := readAscOnly(fs, d)
+	c := newCompactor(dir, fs, d.Size)
+	c.Open()
+	files, cerr := doCompact(c, d.Fast, groupPaths(dir, d.Group))
+	ec := errClass(cerr)
+	var outs []outFile
+	for _, f := range files {
+		of, err := readOutFile(f, d)
+		if err != nil {
+			ec = 8
+			cerr = err
+		}
+		outs = append(outs, of)
+	}
+	if ec == 0 {
+		if err := fs.Replace(groupPaths(dir, d.Group), files); err != nil {
+			ec = 7
+			cerr = err
+		}
+	}
+	after := readAscOnly(fs, d)
+	for _, r := range append(append([]keyRead{}, before...), after...) {
+		if r.Err != "" && ec == 0 {
+			ec = 6
+		}
+	}
+	o.Count(fmt.Sprintf("roll:outputs=%d", len(outs)))
+	o.Count(fmt.Sprintf("roll:fast=%v", d.Fast))
+	o.Count("roll:blocks=" + bucket(total))
+	coq := fmt.Sprintf("CRoll %s %s %s %s %d%%N\n  %s\n  %s\n  %s",
+		coqKeys(d.Keys), hx.CoqZ(int64(d.Size)), coqNames(fsn), coqNames(d.Group), ec,
+		coqReads(d, before, nil), coqUnitOuts(d, outs), coqReads(d, after, nil))
+	obs := map[string]interface{}{"err": ec, "outs": outNames(outs), "points_before": totalPoints(before), "points_after": totalPoints(after)}
+	if cerr != nil {
+		obs["error"] = trunc(cerr.Error(), 300)
+	}
+	o.Emit(hx.Case{Kind: "roll", Coq: coq, Desc: d, Obs: obs, Nontrivial: total > 0, Sig: sigOf(d, "roll"), Origin: origin})
+}
+
+// ---------------------------------------------------------------- case: delete while the compaction runs
+
+func runDelete(o *hx.Out, d *SetDesc, origin string) {
+	o.Begin("delete", d)
+	dir, _ := os.MkdirTemp(scratchRoot(), "c09-")
+	defer os.RemoveAll(dir)
+	if err := materialize(dir, d); err != nil {
+		o.Count("skipped:materialize:" + firstWord(err))
+		return
+	}
+	fs, err := openStore(dir)
+	if err != nil {
+		o.Count("skipped:open")
+		return
+	}
+	defer fs.Close()
+	before := readAll(fs, d)
+	c := newCompactor(dir, fs, d.Size)
+	calls := 0
+	var derr error
+	c.WithFormatFileNameFunc(func(generation, sequence int) string {
+		if calls == 0 {
+			derr = fs.Delete([][]byte{d.Keys[d.DelKey].Bytes()})
+		}
+		calls++
+		return tsm1.DefaultFormatFileName(generation, sequence)
+	})
+	c.Open()
+	files, cerr := doCompact(c, d.Fast, groupPaths(dir, d.Group))
+	if derr != nil || calls == 0 {
+		o.Count("delete:not_issued")
+		return
+	}
+	ec := errClass(cerr)
+	var outs []outFile
+	for _, f := range files {
+		of, err := readOutFile(f, d)
+		if err != nil {
+			ec = 8
+			cerr = err
+		}
+		outs = append(outs, of)
+	}
+	if ec == 0 {
+		if err := fs.Replace(groupPaths(dir, d.Group), files); err != nil {
+			ec = 7
+			cerr = err
+		}
+	}
+	live, tmp, _ := listDir(dir)
+	after := readAll(fs, d)
+	shapeStats(o, d, "delete")
+	o.Count(fmt.Sprintf("delete:err=%d", ec))
+	coq := fmt.Sprintf("CDelete %s %s %s %s %s\n  %s\n  %s %d%%N %d%%N\n  %s %s %d%%N\n  %s\n  %s",
+		coqKeys(d.Keys), hx.CoqZ(int64(d.Size)), hx.CoqBool(d.Fast), hx.CoqZ(d.Lo), hx.CoqZ(d.Hi),
+		coqFiles(d, d.Files), coqNames(d.Group), d.DelKey, ec,
+		coqOuts(d, outs), coqNames(live), tmp, coqReads(d, before, nil), coqReads(d, after, nil))
+	obs := map[string]interface{}{"err": ec, "outs": outNames(outs), "live": live, "tmp_left": tmp,
+		"points_before": totalPoints(before), "points_after": totalPoints(after)}
+	if cerr != nil {
+		obs["error"] = trunc(cerr.Error(), 300)
+	}
+	o.Emit(hx.Case{Kind: "delete", Coq: coq, Desc: d, Obs: obs, Nontrivial: totalPoints(before) > 0 && len(d.Group) > 0,
+		Sig: sigOf(d, "delete"), Origin: origin})
+}
+
 // ---------------------------------------------------------------- case: snapshot
 
 func runSnap(o *hx.Out, d *SetDesc, origin string) {
@@ -1390,6 +1606,10 @@ func runInput(o *hx.Out, kind string, d *SetDesc, origin string) {
 		runSnap(o, d, origin)
 	case "plan":
 		runPlan(o, d, origin)
+	case "roll":
+		runRoll(o, d, origin)
+	case "delete":
+		runDelete(o, d, origin)
 	}
 }
 
@@ -1409,7 +1629,7 @@ func main() {
 		return
 	}
 	r := hx.NewRand(f.Seed)
-	for _, dc := range designed() {
+	for _, dc := range designed(f.Tier) {
 		d := dc.d
 		runInput(o, dc.kind, &d, "designed")
 	}
